@@ -278,6 +278,8 @@ def string_inputs_arb(d, rng, n):
         ins.append([t] + le_bytes(97, 4) * 2 + le_bytes(32, 4) * 18)
         ins.append([t] + le_bytes(32, 4) * 3 + le_bytes(0xDF, 4) * 17)
         ins.append([t] + le_bytes(97, 4) + le_bytes(32, 4) * 45)            # one visible character, then a long run of white space
+        ins.append([t] + le_bytes(97, 4) * 40)
+        ins.append([t] + le_bytes(32, 4) + le_bytes(0xDF, 4) * 3 + le_bytes(32, 4) + le_bytes(0x130, 4) * 3 + le_bytes(97, 4) * 30)
         ins.append([t] + le_bytes(32, 4) * 40 + le_bytes(97, 4) * 3)
     for _ in range(n):
         t = rng.randrange(256)
@@ -338,6 +340,11 @@ def check_C09():
     for i, obj in enumerate(srows):
         d = VL.instantiate_plain(obj["d"], "as%04d" % i)
         d["tag"] = string_tag(obj)
+        if i % 3 == 0 and not any(r["k"] == "len_char_max" for r in d["val"]):
+            # a large minimum without a maximum (the generator's default maximum is minimum + 16)
+            for r in d["val"]:
+                if r["k"] == "len_char_min":
+                    r["b"] = 20
         sdecls.append(d)
     fdecls = float_shape_decls(shapes)
     if q and len(fdecls) > 140:
